@@ -153,11 +153,20 @@ def havoc_state(fv, st, names, why=''):
             fv.add_fact(st, z3.Implies(sv.term != P.none, z3.Select(a1, sv.term)))
         st.env[n] = sv
     frozen = set((fv.c.opts.get('immutable_fields', '') if fv.c else '').split(','))
+    # record objects built in this function from a dict display and (syntactically) never handed to anything before the
+    # return statement cannot be reached by unknown code: their fields survive the havoc
+    keep = [st.env[n].term for n in sorted(getattr(fv, 'unescaped_records', ())) if n in st.env
+            and st.env[n].ty.strip_opt().is_obj]
     for attr in sorted(E.field_types):
         if attr in frozen:
             continue
         for key, fty in fv.field_variants(attr):
-            st.heap[key] = z3.Const('H_%s!%d' % (key, next(E.counter)), z3.ArraySort(P.V, zsort(fty)))
+            old_arr = st.heap.get(key)
+            new_arr = z3.Const('H_%s!%d' % (key, next(E.counter)), z3.ArraySort(P.V, zsort(fty)))
+            if old_arr is not None:
+                for o in keep:
+                    fv.add_fact(st, z3.Implies(o != P.none, z3.Select(new_arr, o) == z3.Select(old_arr, o)))
+            st.heap[key] = new_arr
     for k in list(st.env):
         if k.startswith('glob:') and not fv.E.sc.globals.get(k[5:], '').startswith('const:'):
             gty = st.env[k].ty
@@ -218,6 +227,21 @@ def probe_sites(fv, s, st, reason):
                 for e in ast.walk(comp.target):
                     if isinstance(e, ast.Name):
                         probe.env[e.id] = fv.E.fresh(e.id, ANY)
+                # when the iterable can be evaluated, the targets are an arbitrary ELEMENT of it (not arbitrary values)
+                no = len(fv.obligations)
+                try:
+                    from .comps import iter_source
+                    src = iter_source(fv, comp.target, comp.iter, probe, False)
+                    idx = z3.Int('it!%d' % next(fv.E.counter))
+                    fv.add_fact(probe, z3.And(0 <= idx, idx < src.length))
+                    for n2, sv in src.bind(idx).items():
+                        probe.env[n2] = sv
+                        if zsort(sv.ty) == P.V:
+                            tf = fv.typed_fact(sv.term, sv.ty)
+                            if not z3.is_true(tf):
+                                fv.add_fact(probe, tf)
+                except (Unsupported, EngineError, z3.Z3Exception):
+                    del fv.obligations[no:]
             try:
                 if kind == 'new':
                     fv.ev(node, probe, False)
